@@ -213,4 +213,148 @@ theorem insertJob_spec {s s' : State} {j : Job} (h : s.insertJob j = some s') :
             exact hp.2
           · exact hnp a ha
 
+theorem launch_spec {s s' : State} {id : Id} (h : s.launch id = some s') :
+    ∃ e, e ∈ s.pending ∧ e.id = id ∧ s.launchable e = true ∧
+      s' = { s with pending := s.pending.map (setRunning id), launched := (id, e.reads) :: s.launched } := by
+  unfold State.launch at h
+  split at h
+  · simp at h
+  · rename_i e he
+    obtain ⟨hm, hid⟩ := entry?_some he
+    split at h
+    · rename_i hl
+      simp at h
+      exact ⟨e, hm, hid, hl, h.symm⟩
+    · simp at h
+
+theorem finish_spec {s s' : State} {id : Id} (h : s.finish id = some s') :
+    ∃ e cs, e ∈ s.pending ∧ e.id = id ∧ e.running = true ∧ id ∉ s.inflight ∧
+      ctrDecAll s.counters (s.counterDiscs id) = some cs ∧
+      s' = { s with counters := cs, inflight := id :: s.inflight, finished := id :: s.finished } := by
+  unfold State.finish at h
+  split at h
+  · simp at h
+  · rename_i e he
+    obtain ⟨hm, hid⟩ := entry?_some he
+    split at h
+    · rename_i hc
+      simp at hc
+      cases hd : ctrDecAll s.counters (s.counterDiscs id) with
+      | none => simp [hd] at h
+      | some cs =>
+        simp [hd] at h
+        exact ⟨e, cs, hm, hid, hc.1, hc.2, rfl, h.symm⟩
+    · simp at h
+
+theorem completeOne_spec {s s' : State} {id : Id} (h : s.completeOne id = some s') :
+    s.isPending id = true ∧ id ∉ s.success ∧
+      s' = { s with pending := s.pending.filter (·.id ≠ id), success := id :: s.success } := by
+  unfold State.completeOne at h
+  split at h
+  · rename_i hp
+    split at h
+    · simp at h
+    · rename_i hs
+      simp at hs
+      exact ⟨hp, hs, (Option.some.inj h).symm⟩
+  · simp at h
+
+theorem completeAll_spec {l : List Id} {s s' : State} (h : s.completeAll l = some s') :
+    s' = { s with pending := s.pending.filter (fun e => e.id ∉ l), success := l.reverse ++ s.success } ∧
+      l.Nodup ∧ (∀ a ∈ l, s.isPending a = true ∧ a ∉ s.success) := by
+  induction l generalizing s with
+  | nil =>
+    simp [State.completeAll] at h; subst h
+    have : s.pending.filter (fun e => true) = s.pending := by
+      apply List.filter_eq_self.2; simp
+    simp [this]
+  | cons a l ih =>
+    simp only [State.completeAll] at h
+    cases hc : s.completeOne a with
+    | none => simp [hc] at h
+    | some s1 =>
+      simp [hc] at h
+      obtain ⟨hp, hs, rfl⟩ := completeOne_spec hc
+      obtain ⟨rfl, hnd, hall⟩ := ih h
+      refine ⟨?_, ?_, ?_⟩
+      · simp only [List.filter_filter]
+        congr 1
+        · apply List.filter_congr
+          intro e _
+          by_cases h1 : e.id = a <;> simp [h1]
+        · simp
+      · simp only [List.nodup_cons]
+        refine ⟨?_, hnd⟩
+        intro hm
+        have := (hall a hm).1
+        simp [State.isPending] at this
+      · intro x hx
+        simp at hx
+        rcases hx with rfl | hx
+        · exact ⟨hp, hs⟩
+        · have := hall x hx
+          simp [State.isPending] at this ⊢
+          grind
+
+theorem complete_spec {s s' : State} {id : Id} (h : s.complete id = some s') :
+    s' = { s with pending := s.pending.filter (fun e => e.id ∉ id :: s.alsoOf id), success := (id :: s.alsoOf id).reverse ++ s.success } ∧
+      (id :: s.alsoOf id).Nodup ∧ (∀ a ∈ id :: s.alsoOf id, s.isPending a = true ∧ a ∉ s.success) := by
+  have := @completeAll_spec (id :: s.alsoOf id) s s' (by simpa [State.completeAll, State.complete] using h)
+  exact this
+
+theorem rewrite_spec {s s' : State} {id : Id} {a : Access} {must : Bool} (h : s.rewrite id a must = some s') :
+    s' = { s with pending := s.pending.map (setReads id a) } := by
+  unfold State.rewrite at h
+  split at h
+  · simp at h; exact h.symm
+  · rename_i hp
+    split at h
+    · simp at h
+    · simp at h
+      subst h
+      have : s.pending.map (setReads id a) = s.pending := by
+        simp [State.isPending] at hp
+        conv => rhs; rw [← List.map_id s.pending]
+        apply List.map_congr_left
+        intro e he
+        simp [setReads, hp e he]
+      simp [this]
+
+theorem skip_spec {s s' : State} {id : Id} (h : s.skip id = some s') :
+    (s.isPending id = false ∧ s' = s) ∨
+    (∃ e cs, e ∈ s.pending ∧ e.id = id ∧ e.running = false ∧ e.kind ≠ .alsoComplete ∧
+      ctrDecAll s.counters (s.counterDiscs id) = some cs ∧
+      ({ s with counters := cs, skipped := id :: s.skipped } : State).complete id = some s') := by
+  unfold State.skip at h
+  split at h
+  · rename_i he
+    left
+    simp at h
+    refine ⟨?_, h.symm⟩
+    have := entry?_none he
+    simp [State.isPending]
+    exact this
+  · rename_i e he
+    obtain ⟨hm, hid⟩ := entry?_some he
+    right
+    split at h
+    · simp at h
+    · rename_i hc
+      simp at hc
+      cases hd : ctrDecAll s.counters (s.counterDiscs id) with
+      | none => simp [hd] at h
+      | some cs =>
+        simp [hd] at h
+        exact ⟨e, cs, hm, hid, hc.1, hc.2, rfl, h⟩
+
+theorem receive_spec {s s' : State} {id : Id} (h : s.receive id = some s') :
+    id ∈ s.inflight ∧ id ∉ s.success ∧
+    ({ s with inflight := s.inflight.erase id, delivered := id :: s.delivered } : State).complete id = some s' := by
+  unfold State.receive at h
+  split at h
+  · rename_i hc
+    simp at hc
+    exact ⟨hc.1, hc.2, h⟩
+  · simp at h
+
 end Fontc.Sched
